@@ -561,6 +561,7 @@ def rewrite_item_text(src, S, log, sites, is_fn=True, outline=None, keep_for=())
     src = rules.panics_to_obligations(src, log, sites)
     src = rules.rewrite_format(src, log)
     src = rules.closure_param_patterns(src, log)
+    src = rules.clone_from_calls(src, log)
     src = rules.adapter_chains(src, log)
     src = rules.split_headers(src, log)
     src = rules.loop_headers(src, log, keep_for)
